@@ -90,31 +90,30 @@ def run(ctx):
             f = ctx.fn("<%s as %s>::from_value" % (ty, FM))
             if f:
                 n_val += 1
-                ps = ctx.find_calls(f, r"^syn::lit::LitStr::(parse|parse_with)$")
-                ok = len(ps) == 1
-                det = "%d LitStr parse calls" % len(ps)
+                # from_value as a case table: a string literal is parsed with the type's own grammar
+                # (Ok → the parsed value, failure → the self-spanned unknown_lit_str_value), every
+                # other literal kind is rejected with unexpected_lit_type(value)
+                rows = resalg.raw_cases(ctx, f)
+                s_, _ = ctx.sym(f)
+                txt = [(sorted(resalg._atom(e, v, s_) for e, v in c), resalg.S.show(resalg.S.strip_transparent(v), s_)) for c, v in rows]
+                PRX = r"syn::lit::LitStr::(parse|parse_with)\(\(a1 as Str\)\.0(, fn syn::punctuated::Punctuated::<T, P>::parse_terminated)?\)"
+                ok_rows = [(c, v) for c, v in txt if "discr(a1)=Str" in c and any(re.match(r"^is_ok\(%s\)=True$" % PRX, a) for a in c)]
+                bad_rows = [(c, v) for c, v in txt if "discr(a1)=Str" in c and any(re.match(r"^is_ok\(%s\)=False$" % PRX, a) for a in c)]
+                other = [(c, v) for c, v in txt if "discr(a1)=Str" not in c]
+                ok = len(ok_rows) == 1 and re.match(r"^core::result::Result::Ok\{\(%s as Ok\)\.0\}$" % PRX, ok_rows[0][1]) is not None and len(ok_rows) + len(bad_rows) + len(other) == len(txt)
+                pcs = [resalg.find_call(v, n_) or next((resalg.find_call(e, n_) for e, _ in c if resalg.find_call(e, n_)), None) for c, v in rows for n_ in ("syn::lit::LitStr::parse", "syn::lit::LitStr::parse_with")]
+                pcs = [x for x in pcs if x is not None]
+                det = "type arguments %s" % sorted({tuple(x[3]) for x in pcs})
                 if ok:
-                    ci = mir.callee_info(ps[0][1])
-                    name = mir.callee_of(ps[0][1])
-                    targs = ci.get("targs") or []
-                    if name.endswith("::parse"):
-                        ok = targs == [ty]
+                    if any(x[1].endswith("::parse_with") for x in pcs):
+                        ok = all(x[1].endswith("::parse_with") for x in pcs)
                     else:
-                        ok = "parse_terminated" in ctx.expr(f, ps[0][1]["args"][1])
-                    ok = ok and ctx.expr(f, ps[0][1]["args"][0]) == "(a1 as Str).0"
-                    det = "%s::<%s>(%s)" % (name.rsplit("::", 1)[-1], targs, ctx.expr(f, ps[0][1]["args"][0]))
-                    ctx.requires("C13.G.string-arm", f, ps[0][0], "LitStr::parse", [r"discr\(a1\)=Str$"])
-                ctx.ob("C13.F.own-grammar", f.key, "LitStr::parse::<Self>", ok, det)
-                rej = ctx.find_calls(f, r"^darling_core::error::Error::unexpected_lit_type$")
-                ok = len(rej) == 1 and ctx.expr(f, rej[0][1]["args"][0]) == "a1"
-                ctx.ob("C13.G.other-literal-kinds-rejected", f.key, "unexpected_lit_type(value)", ok, "%d" % len(rej))
-                for blk, t in rej:
-                    ctx.requires("C13.G.other-literal-kinds-rejected", f, blk, "unexpected_lit_type", [("ne", r"^discr\(a1\)$", "Str")])
-                # parse failure becomes the self-spanned unknown_lit_str_value
-                cl = ctx.closures_of(f)
-                rs = [e for c in cl for _, e in ctx.ret_exprs(c)]
-                ok = len(rs) == 1 and rs[0].startswith("darling_core::error::Error::unknown_lit_str_value(")
-                ctx.ob("C13.G.parse-failure-spanned", f.key, "map_err(|_| unknown_lit_str_value(v))", ok, "%s" % rs)
+                        ok = bool(pcs) and all(tuple(x[3]) == (ty,) for x in pcs)
+                ctx.ob("C13.F.own-grammar", f.key, "LitStr::parse::<Self>", ok, det + "; rows %s" % [(c, v[:80]) for c, v in txt][:3])
+                okr = len(other) >= 1 and all(v == "core::result::Result::Err{darling_core::error::Error::unexpected_lit_type(a1)}" and any(re.match(r"^discr\(a1\)=\('not-in', \('Str',\)\)$", a) or (re.match(r"^discr\(a1\)=\w+$", a) and a != "discr(a1)=Str") for a in c) for c, v in other)
+                ctx.ob("C13.G.other-literal-kinds-rejected", f.key, "unexpected_lit_type(value)", okr, "%s" % other[:3])
+                okb = len(bad_rows) == 1 and re.match(r"^core::result::Result::Err\{darling_core::error::Error::(unknown_lit_str_value\(\(a1 as Str\)\.0\)|with_span\(darling_core::error::Error::(new\(darling_core::error::kind::ErrorKind::UnknownValue\{syn::lit::LitStr::value\(\(a1 as Str\)\.0\)\}\)|unknown_value\(syn::lit::LitStr::value\(\(a1 as Str\)\.0\)\)), \(a1 as Str\)\.0\))\}$", bad_rows[0][1]) is not None
+                ctx.ob("C13.G.parse-failure-spanned", f.key, "map_err(|_| unknown_lit_str_value(v))", okb, "%s" % [v[:200] for c, v in bad_rows])
         if "from_string" in i["items"] and syn_typed:
             f = ctx.fn("<%s as %s>::from_string" % (ty, FM))
             if f:
